@@ -1,0 +1,15 @@
+//go:build verif
+// +build verif
+
+package hap
+
+// VerifYield, when set by the verification harness, is called at the schedule
+// points of the encrypted write path with the name of the point and the payload
+// of the write (so that the harness can tell concurrent writers apart).
+var VerifYield func(point string, payload []byte)
+
+func verifYield(point string, payload []byte) {
+	if f := VerifYield; f != nil {
+		f(point, payload)
+	}
+}
